@@ -204,3 +204,53 @@ def compute_webs(fn: ast.FunctionDef) -> dict[int, str]:
             elif id(n) in r.defs_of_load and r.defs_of_load[id(n)]:
                 out[id(n)] = web_name(next(iter(r.defs_of_load[id(n)])))
     return out
+
+
+def unbound_reads(fn: ast.FunctionDef) -> list[ast.Name]:
+    """Reads of a local name of `fn` that no definition reaches on any path (UnboundLocalError whenever executed).  Names shared
+    with nested scopes, globals / nonlocals and exception-handler names are not judged."""
+    skip: set[str] = set()
+    for n in ast.walk(fn):
+        if isinstance(n, (ast.Global, ast.Nonlocal)):
+            skip |= set(n.names)
+        if n is not fn and isinstance(n, (ast.FunctionDef, ast.AsyncFunctionDef, ast.Lambda)):
+            skip |= {x.id for x in ast.walk(n) if isinstance(x, ast.Name)}
+            if not isinstance(n, ast.Lambda):
+                skip.add(n.name)
+        if isinstance(n, ast.ExceptHandler) and n.name:
+            skip.add(n.name)
+        if isinstance(n, (ast.Import, ast.ImportFrom)):
+            skip |= {(a.asname or a.name).split(".")[0] for a in n.names}
+        if isinstance(n, ast.ClassDef):
+            skip.add(n.name)
+        if isinstance(n, (ast.ListComp, ast.SetComp, ast.DictComp, ast.GeneratorExp)):
+            skip |= {x.id for g in n.generators for x in ast.walk(g.target) if isinstance(x, ast.Name)}
+        if isinstance(n, ast.NamedExpr) and isinstance(n.target, ast.Name):
+            skip.add(n.target.id)
+        if isinstance(n, (ast.Try,)) or type(n).__name__ in ("Match", "TryStar"):
+            pass
+    local = {x.id for x in ast.walk(fn) if isinstance(x, ast.Name) and isinstance(x.ctx, (ast.Store, ast.Del))}
+    a = fn.args
+    params = {arg.arg for arg in a.posonlyargs + a.args + a.kwonlyargs + ([a.vararg] if a.vararg else []) + ([a.kwarg] if a.kwarg else [])}
+    local |= params
+    r = _Reach(skip)
+    entry = {}
+    for nm in params:
+        if nm in skip:
+            continue
+        d = r.next_def
+        r.next_def += 1
+        r.name_of_def[d] = nm
+        entry[nm] = frozenset([d])
+    try:
+        r.run_function(fn, entry)
+    except Exception:
+        return []
+    # a try body may bind a name the handler / the code after it reads: judged only outside try statements
+    in_try = {id(x) for t in ast.walk(fn) if isinstance(t, ast.Try) for x in ast.walk(t)}
+    out = []
+    for n in ast.walk(fn):
+        if isinstance(n, ast.Name) and isinstance(n.ctx, ast.Load) and n.id in local and n.id not in skip and id(n) in r.defs_of_load \
+                and not r.defs_of_load[id(n)] and id(n) not in in_try:
+            out.append(n)
+    return out
